@@ -20,6 +20,38 @@ type Board struct {
 	Msgs []storage.Message
 	// OnAppend observers (oracles)
 	OnAppend []func(m storage.Message, by int)
+	// PreAppend lets an adversary put messages on the board right before a
+	// genuine message becomes visible (by = appending node index).
+	PreAppend []func(m storage.Message, by int)
+	// Injected marks adversarial entries by offset.
+	Injected map[uint64]*Inject
+}
+
+// Inject describes an adversarial board entry.
+type Inject struct {
+	Kind   string // mutation kind (canonical, part of violation signatures)
+	Event  string
+	Detail string
+	Expect string // "reject": must change nothing; "": not judged
+	Seen   map[int]bool
+}
+
+// InjectMsg appends an adversarial message (no PreAppend recursion).
+func (b *Board) InjectMsg(m storage.Message, inj *Inject) uint64 {
+	m.ID = uuid.New().String()
+	m.Offset = uint64(len(b.Msgs))
+	b.Msgs = append(b.Msgs, m)
+	if b.Injected == nil {
+		b.Injected = map[uint64]*Inject{}
+	}
+	inj.Event = m.Event
+	inj.Seen = map[int]bool{}
+	b.Injected[m.Offset] = inj
+	b.w.Log.Add("inject %d kind=%s ev=%s round=%.8s from=%s to=%s", m.Offset, inj.Kind, m.Event, m.DkgRoundID, m.SenderAddr, m.RecipientAddr)
+	for _, f := range b.OnAppend {
+		f(m, -1)
+	}
+	return m.Offset
 }
 
 func newBoard(w *World) *Board { return &Board{w: w} }
@@ -28,6 +60,9 @@ func newBoard(w *World) *Board { return &Board{w: w} }
 func (b *Board) Append(by int, msgs ...storage.Message) []storage.Message {
 	out := make([]storage.Message, 0, len(msgs))
 	for _, m := range msgs {
+		for _, f := range b.PreAppend {
+			f(m, by) // the hook injects through InjectMsg itself
+		}
 		m.ID = uuid.New().String()
 		m.Offset = uint64(len(b.Msgs))
 		b.Msgs = append(b.Msgs, m)
